@@ -99,6 +99,8 @@ def as_implemented(b, api, loc):
             return "(any encoder, value source)", "as-implemented|fails|" + d["ctx"]
         if api.startswith("pretty."):          # pretty goes through alt.Decompose of the value
             return "(any encoder, value source)", "as-implemented|fails|" + d["ctx"]
+    if d["ctx"] == "createkey-collision":
+        return "(any encoder)", "as-implemented|createkey-collision"
     if d["ctx"] == "key-collision":
         return "(any encoder)", "as-implemented|key-collision"
     if w == "as-implemented:time-field":
@@ -211,7 +213,7 @@ def gen_cases(ctx):
     # named library types as top-level values (CreateKey / FullTypePath need a named top-level type)
     for top in ("S", "T1", "T2", "U", "V", "W", "Tagged", "Unexp", "Emb", "EmbPtr", "Simp", "PSimp", "Gen", "JM", "PJM", "TM",
                 "[]anyF", "[]anyP", "L1", "Str1", "Str2", "Col1", "Col2", "Col3", "[4]uint8", "[1]uint8", "[0]uint8", "BA4", "BS", "[]BS", "[][4]uint8", "N", "IS1", "IS64", "IP1", "Tree", "List", "Node", "*Node", "[]Node", "P", "Ma", "EN", "*EN", "EA",
-                "Pair[int]", "Pair[string]", "Pair[Pair[int]]", "*Pair[int]", "[]Pair[int]", "anyPair", "Doc", "Doc2", "Dia", "Dia2", "SP", "E0", "[1]*int", "[1]*S", "Meta", "*Meta", "[]Meta", "map[string]Meta", "Ev", "LogT", "Hat", "Deep3", "Deep4", "Deep5", "Deep6"):
+                "Pair[int]", "Pair[string]", "Pair[Pair[int]]", "*Pair[int]", "[]Pair[int]", "Doc", "Doc2", "Dia", "Dia2", "SP", "E0", "[1]*int", "[1]*S", "Meta", "*Meta", "[]Meta", "map[string]Meta", "Ev", "LogT", "Hat", "Deep3", "Deep4", "Deep5", "Deep6"):
         for v in ("z", "n", "e"):
             if (top.startswith("[]") or top == "BS") and v == "z":
                 continue          # a nil top-level slice is not a struct value (null or [] are both fine)
